@@ -180,10 +180,11 @@ func H10d() {
 	vCover(hd10FieldNames[focus])
 	vClass(hd10FieldNames[focus])
 	na := vLen(1, maxn)
-	nb := vLen(1, maxn)
-	if vParam("sum10d", 0) != 0 && na+nb > vParam("sum10d", 0) {
-		vCut("n10d/sum10d bound: total number of elements in focus")
+	nbmax := maxn
+	if sum := vParam("sum10d", 0); sum != 0 && sum-na < nbmax {
+		nbmax = sum - na // bound on the total number of elements in focus
 	}
+	nb := vLen(1, nbmax)
 	a := hd10Doc(focus, na, idlen)
 	b := hd10Doc(focus, nb, idlen)
 
